@@ -5,6 +5,7 @@ CONSTANTS
   ArgvSet <- NoSet
   MaxParses = 0
   EnvChanges = FALSE
+  LetterAdds <- NoSet
 INVARIANTS TRepeatable TLimit
 CONSTRAINT Track
 POSTCONDITION Report
